@@ -15,7 +15,8 @@ import struct
 import sys
 
 PROP = "C17"
-RULE = ("routing-table texts: iproute2, Linux netstat (all 33 contiguous netmasks + non-contiguous ones) and BSD netstat "
+RULE = ("routing-table texts: iproute2, Linux netstat (all 33 contiguous netmasks + non-contiguous ones: every single bit, every pair of bits, contiguous with one hole / "
+        "one stray bit, byte patterns, random) and BSD netstat "
         "(abbreviated a / a.b / a.b.c with and without /width) with 0..40000 routes, every prefix length, host bits set, "
         "default/127.x/0.x entries, header and IPv6 lines, interleaved junk (a/b/c, x/, x/yy, octets > 255, octal octets, "
         "negative and oversized widths, > 4300-digit numbers, non-ASCII bytes, \\x1c-only lines); single-token differential "
@@ -348,6 +349,101 @@ def kept(ipstr):
     return not ipstr.startswith("0.") and not ipstr.startswith("127.")
 
 
+# ---- property oracle for EVERY netmask value (contiguous or not), independent of sshuttle and of the model.
+# A routing-table entry (dest, genmask) matches exactly the addresses x with x & genmask == dest & genmask.
+# The advertisement "net/width" for that entry must (a) be canonical: no bit of net below the prefix is set;
+# (b) be a network OF THAT ROUTE: every address inside net/width is matched by the entry.  For a contiguous
+# genmask of width w this is implied by net/width == ip_network((dest, w)) (checked separately, exactly);
+# for the other 2^32 - 33 genmasks (b) is what the property text still demands ("canonical network ... for
+# every IPv4 route printed", "all netmask values"): an advertisement that is wider than the route makes the
+# client intercept addresses the server has no route for.  Closed form of (b): no one-bit of the genmask
+# lies below the prefix, and net agrees with dest on the genmask's bits.
+
+def hostmask(width):
+    return (1 << (32 - width)) - 1 if 0 <= width <= 32 else None
+
+
+def route_oracle(dest, genmask, net, width):
+    """returns None if net/width is a canonical network inside the route (dest, genmask), else
+    (reason, witness address as dotted quad or None)"""
+    hm = hostmask(width)
+    if hm is None:
+        return ("prefix length %d is not in 0..32" % width, None)
+    if net & hm:
+        return ("advertised address %s has bits set below the /%d prefix (not canonical)" % (quad(net), width), None)
+    if (net ^ dest) & genmask:
+        return ("advertised network %s/%d: its own address is not matched by the route %s mask %s"
+                % (quad(net), width, quad(dest), quad(genmask)), quad(net))
+    stray = hm & genmask
+    if stray:
+        x = net | (stray & -stray)        # inside net/width, differs from dest in a bit the route compares
+        return ("advertised network %s/%d contains %s, which the route %s mask %s does not match"
+                % (quad(net), width, quad(x), quad(dest), quad(genmask)), quad(x))
+    return None
+
+
+def genmask_samples(rng, nrandom):
+    """netmask values: all 33 contiguous, every single bit, every pair of bits, every contiguous mask with one
+    hole or one stray low bit, byte patterns, random dense / sparse / arbitrary 32-bit values"""
+    ms = [(0xffffffff << (32 - w)) & 0xffffffff for w in range(33)]
+    ms += [1 << i for i in range(32)]
+    ms += [(1 << i) | (1 << j) for i in range(32) for j in range(i)]
+    for w in range(1, 33):
+        c = (0xffffffff << (32 - w)) & 0xffffffff
+        ms += [c & ~(1 << i) & 0xffffffff for i in range(32 - w, 32)]        # one hole
+        ms += [c | (1 << i) for i in range(0, 32 - w)]                        # one stray bit below
+    ms += [0xff00ff00, 0xfff000ff, 0xfffffe01, 0xffc0ff00, 0x00ffffff, 0x7fffffff, 0xfffffffe ^ 0x80000000, 0x0000ffff,
+           0xff0000ff, 0x80000001, 0xaaaaaaaa, 0x55555555, 0xffff00ff, 0x00000100, 0xfeffffff]
+    for _ in range(nrandom):
+        k = rng.random()
+        if k < 0.4:
+            ms.append(rng.getrandbits(32))
+        elif k < 0.7:                       # contiguous with a few holes
+            c = (0xffffffff << (32 - rng.randint(1, 32))) & 0xffffffff
+            for _h in range(rng.randint(1, 3)):
+                c &= ~(1 << rng.randrange(32))
+            ms.append(c & 0xffffffff)
+        else:                               # contiguous with a few stray bits
+            c = (0xffffffff << (32 - rng.randint(0, 31))) & 0xffffffff
+            for _h in range(rng.randint(1, 3)):
+                c |= 1 << rng.randrange(32)
+            ms.append(c)
+    seen, out = set(), []
+    for m in ms:
+        if m not in seen:
+            seen.add(m)
+            out.append(m)
+    return out
+
+
+def is_contiguous(m):
+    inv = ~m & 0xffffffff
+    return (inv & (inv + 1)) == 0
+
+
+def genmask_table(rows):
+    """Linux `netstat -rn` text for rows of (dest, genmask), full dotted quads as net-tools prints them"""
+    out = [b"Kernel IP routing table\n", b"Destination     Gateway         Genmask         Flags   MSS Window  irtt Iface\n"]
+    for dest, m in rows:
+        out.append(("%-15s %-15s %-15s U         0 0          0 eth0\n" % (quad(dest), "0.0.0.0", quad(m))).encode())
+    return b"".join(out)
+
+
+def genmask_table_failures(tool_result, rows):
+    """evaluate route_oracle on what the real _list_routes returned ('OK a/w,b/w,...') for genmask_table(rows)"""
+    if not tool_result.startswith("OK"):
+        return [("route discovery raised %s on a well-formed netstat table" % tool_result, None, None)]
+    items = [x.rsplit("/", 1) for x in tool_result[3:].split(",")] if len(tool_result) > 3 else []
+    if len(items) != len(rows):
+        return [("%d routes printed, %d advertised" % (len(rows), len(items)), None, None)]
+    bad = []
+    for k, ((dest, m), (a, w)) in enumerate(zip(rows, items)):
+        r = route_oracle(dest, m, int(ipaddress.IPv4Address(a)), int(w))
+        if r is not None:
+            bad.append((r[0], r[1], k))
+    return bad
+
+
 JUNK_TOKENS = ["a/b/c", "x/", "x/yy", "/", "1.2.3.4/", "1.2.3.4/24/8", "300.1.2.3/24", "1.2.3.256/32", "1.2.3.4/-5",
                "1.2.3.4/-1", "10.0.0.0/+8", "10.0.0.0/1_6", "10.0.0.0/0x10", "08.1.1.1/8", "010.1.1.1/8", "1.2.3.0255/32",
                "1.2.3.4.5/8", "1..2/8", ".1/8", "1./8", "10.1.2.3/99", "10.1.2.3/033", "::1/128", "fe80::/64",
@@ -627,6 +723,72 @@ def correspondence(ctx):
         ctx.disagree("_maskbits(None)", None, str(server._maskbits(None)), out[-1])
     ctx.extra["maskbits_contiguous_exhaustive"] = True
 
+    # ---- B2: every netmask VALUE, contiguous or not - property oracle on the real code alone (route_oracle):
+    #      (i) _maskbits: no one-bit of the genmask may lie below the prefix it returns;
+    #      (ii) the real _list_routes on Linux-netstat tables carrying those genmasks: every advertised network is
+    #           canonical and contains only addresses its routing-table entry matches.
+    gms = genmask_samples(rng, 1500 if quick else 60000)
+    out = ctx.run_driver(["MB %d" % m for m in gms])
+    for m, o in zip(gms, out):
+        got = server._maskbits((m, 32))
+        ctx.case(("gm", m), nontrivial=True)
+        ctx.count("genmask_contiguous" if is_contiguous(m) else "genmask_noncontiguous")
+        if str(got) != o:
+            ctx.disagree("_maskbits", m, str(got), o)
+        hm = hostmask(got) if isinstance(got, int) else None
+        if hm is None or (hm & m):
+            stray = (hm & m) if hm is not None else 0
+            ctx.violation("the prefix length derived from a netmask leaves one-bits of the mask outside the prefix: the advertised "
+                          "network is wider than the route",
+                          {"genmask": m, "genmask_text": quad(m), "maskbits": got,
+                           "mask_bit_outside_prefix": quad(stray & -stray) if stray else None})
+    rows_all = []
+    for m in gms:
+        dest = rand_addr(rng)
+        if (dest >> 24) in (0, 127):
+            dest |= 1 << 29
+        if rng.random() < 0.7:
+            dest &= m                       # what a kernel prints; the rest keeps bits outside the mask
+        rows_all.append((dest, m))
+    per = 97
+    for k in range(0, len(rows_all), per):
+        rows = rows_all[k:k + per]
+        text = genmask_table(rows)
+        im = impl_lr("netstat", text)
+        ctx.case(("gmtab", text), nontrivial=True,
+                 sample={"kind": "netstat table, arbitrary genmasks", "routes": len(rows), "head": text[120:200].decode(), "result": im[:60]}
+                 if k == 0 else None)
+        ctx.count("genmask_tables")
+        mo = split_both(ctx.run_driver(["LR netstat %s" % hx(text)])[0])[0]
+        if im != mo:
+            ctx.disagree("_list_routes (netstat, arbitrary genmasks)", {"text_hex": hx(text)[:2000]}, im[:400], mo[:400])
+        for reason, witness, idx in genmask_table_failures(im, rows):
+            one = [rows[idx]] if idx is not None else rows
+            ctx.violation("advertised network is not a network of the printed route (netstat Genmask): it contains addresses the "
+                          "route does not match, or is not canonical",
+                          {"kind": "genmask-table", "tool": "netstat", "rows": [[d, m] for d, m in one],
+                           "line": genmask_table(one).split(b"\n")[2].decode(), "reason": reason, "address_not_routed": witness})
+    ctx.extra["genmask_values_checked"] = len(gms)
+    # the same through the real list_routes (no `ip` executable -> netstat fallback) and server.main's ROUTES frame;
+    # rows with the top mask bit set and a first octet >= 128, so that no entry falls under the 0.x / 127.x filter
+    rows = [(d | 0x80000000, m) for d, m in rows_all if m & 0x80000000 and not is_contiguous(m)][:80]
+    rows += [(d | 0x80000000, m) for d, m in rows_all if m & 0x80000000 and is_contiguous(m)]
+    text = genmask_table(rows)
+    st_, payload, _wire = impl_server("netstat", text)
+    ctx.case(("gmdeliv", text), nontrivial=True)
+    ctx.count("genmask_delivery")
+    if st_ != "OK":
+        res = "CRASH " + payload
+    else:
+        ents = [ln.split(b",") for ln in payload.split(b"\n") if ln]
+        res = "OK " + ",".join("%s/%s" % (e[1].decode(), e[2].decode()) for e in ents) \
+            if all(len(e) == 3 and e[0] == b"2" for e in ents) else "CRASH malformed-ROUTES-payload"
+    for reason, witness, idx in genmask_table_failures(res, rows):
+        one = [rows[idx]] if idx is not None else rows
+        ctx.violation("ROUTES message advertises a network that is not a network of the printed route (netstat Genmask)",
+                      {"kind": "genmask-delivery", "tool": "netstat", "rows": [[d, m] for d, m in one],
+                       "line": genmask_table(one).split(b"\n")[2].decode(), "reason": reason, "address_not_routed": witness})
+
     # ---- C: single lines through _route_iproute / _route_netstat (as found == repaired at this level)
     lines_txt = []
     for tk in JUNK_TOKENS + toks[:60]:
@@ -880,6 +1042,27 @@ def replay(ctx, rp):
             return got[:300] != r["want"] or not ordered
         print("payload %r (want %r)" % (payload[:200], r["want"]))
         return payload[:200].decode("latin-1") != r["want"]
+    if r.get("kind") in ("genmask-table", "genmask-delivery"):
+        rows = [(int(d), int(m)) for d, m in r["rows"]]
+        text = genmask_table(rows)
+        if r["kind"] == "genmask-table":
+            res = impl_lr(r.get("tool", "netstat"), text)
+        else:
+            st, payload, _w = impl_server(r.get("tool", "netstat"), text)
+            res = "CRASH " + payload if st != "OK" else \
+                "OK " + ",".join("%s/%s" % tuple(x.decode() for x in ln.split(b",")[1:3]) for ln in payload.split(b"\n") if ln)
+        fails = genmask_table_failures(res, rows)
+        print("netstat table:\n%s-> %s" % (text.decode(), res[:300]))
+        for reason, witness, _k in fails[:5]:
+            print("property failure:", reason)
+        return bool(fails)
+    if "genmask" in r:
+        m = int(r["genmask"])
+        got = load()["server"]._maskbits((m, 32))
+        hm = hostmask(got) if isinstance(got, int) else None
+        print("_maskbits(%s) -> %r; one-bits of the mask below that prefix: %s"
+              % (quad(m), got, "?" if hm is None else quad(hm & m)))
+        return hm is None or bool(hm & m)
     if "mask" in r:
         got = str(load()["server"]._maskbits((r["mask"], 32)))
         print("_maskbits((%d, 32)) -> %s (want %s)" % (r["mask"], got, r.get("want")))
